@@ -402,6 +402,46 @@ def check_c18_twin(core, rng, n, replay_bin):
     return fails
 
 
+def check_c19_frames(repo):
+    """Static conformance of the two Python data-frame helpers (pandas is not installed, so they cannot be executed): the `columns` list of each helper
+    against the field order of the Rust record it names - `cast_order` / `cast_trade` in rust/src/types.rs, whose tuple layout the Verus unit `py` proves.
+    Column k must be named after field k (documented short names: t -> time, active_order_id -> active_id, passive_order_id -> passive_id)."""
+    import ast
+    import re
+    fails = []
+    src = open(os.path.join(repo, 'src', 'bourse', 'data_processing.py')).read()
+    rs = open(os.path.join(repo, 'rust', 'src', 'types.rs')).read()
+    short = {'t': 'time', 'active_order_id': 'active_id', 'passive_order_id': 'passive_id'}
+
+    def rust_fields(fn, var):
+        m = re.search(r'pub fn %s\b.*?\{\s*\((.*?)\)\s*\}' % fn, rs, re.S)
+        if not m:
+            return None
+        return [short.get(x, x) for x in re.findall(r'\b%s\.(\w+)' % var, m.group(1))]
+
+    want = {'trades_to_dataframe': rust_fields('cast_trade', 'trade'), 'orders_to_dataframe': rust_fields('cast_order', 'order')}
+    tree = ast.parse(src)
+    seen = set()
+    for node in ast.walk(tree):
+        if isinstance(node, ast.FunctionDef) and node.name in want:
+            seen.add(node.name)
+            cols = None
+            for st in ast.walk(node):
+                if isinstance(st, ast.Assign) and any(isinstance(t, ast.Name) and t.id == 'columns' for t in st.targets) and isinstance(st.value, ast.List):
+                    cols = [e.value for e in st.value.elts if isinstance(e, ast.Constant)]
+            if want[node.name] is None:
+                fails.append({'what': 'cannot read the field order of the Rust record for %s from rust/src/types.rs' % node.name})
+            elif cols is None:
+                fails.append({'what': '%s: no literal `columns = [...]` list found' % node.name})
+            elif cols != want[node.name]:
+                bad = [(k, c, w) for k, (c, w) in enumerate(zip(cols, want[node.name])) if c != w]
+                fails.append({'what': '%s names its columns %s; the record it receives holds, in order, %s (first difference: column %s)' % (node.name, cols, want[node.name], bad[0] if bad else 'length')})
+    for fn in want:
+        if fn not in seen:
+            fails.append({'what': 'helper %s not found in src/bourse/data_processing.py' % fn})
+    return fails
+
+
 def main():
     so, prop, seed = sys.argv[1], sys.argv[2], int(sys.argv[3])
     n = int(sys.argv[4]) if len(sys.argv) > 4 else 40
@@ -409,7 +449,9 @@ def main():
     core, d = load(so)
     rng = random.Random(seed)
     try:
-        if prop == 'C19':
+        if prop == 'C19frames':
+            fails = check_c19_frames(replay_bin)      # (the fifth argument is the repository root in this mode)
+        elif prop == 'C19':
             fails = check_c19(core, rng, n)
         elif prop == 'C18twin':
             fails = check_c18_twin(core, rng, n, replay_bin)
